@@ -9,7 +9,9 @@ k=0; s=0; b=0
 for p in $props; do
   for m in mutants/$p/*.diff seeded/$p-*/patch.diff; do
     [ -f "$m" ] || continue
-    tools/mutant.sh "$m" $p quick > /tmp/vf-mutall.$$.log 2>&1; rc=$?
+    chk=$p
+    case "$m" in seeded/*) cp_=$(/venv/bin/python -c "import json,sys; print(json.load(open(sys.argv[1])).get('check',{}).get('check_property',''))" "$(dirname "$m")/meta.json" 2>/dev/null); [ -n "$cp_" ] && chk=$cp_;; esac
+    tools/mutant.sh "$m" $chk quick > /tmp/vf-mutall.$$.log 2>&1; rc=$?
     name=$m
     case $rc in
       1) k=$((k+1)); echo "KILLED   $p $name";;
